@@ -104,16 +104,20 @@ pub enum Base {
     Hole,
     /// two live records, the last one at the end of the file; slots = 1, 2
     TwoLive,
+    /// as Hole / TwoLive but with an outermost transaction already open (C01 only)
+    HoleTx,
+    TwoLiveTx,
 }
 
 pub const BASES: [Base; 3] = [Base::Fresh, Base::Hole, Base::TwoLive];
+pub const BASES_WITH_OPEN_TX: [Base; 5] = [Base::Fresh, Base::Hole, Base::TwoLive, Base::HoleTx, Base::TwoLiveTx];
 
 impl Base {
     pub fn slots(&self) -> [u64; 2] {
         match self {
             Base::Fresh => [1, 2],
-            Base::Hole => [1, 3],
-            Base::TwoLive => [1, 2],
+            Base::Hole | Base::HoleTx => [1, 3],
+            Base::TwoLive | Base::TwoLiveTx => [1, 2],
         }
     }
     pub fn script(&self) -> Vec<SOp> {
@@ -121,13 +125,15 @@ impl Base {
             Base::Fresh => vec![],
             Base::Hole => vec![SOp::Insert(8), SOp::Insert(24), SOp::Insert(8), SOp::Remove(1)],
             Base::TwoLive => vec![SOp::Insert(8), SOp::Insert(24)],
+            Base::HoleTx => vec![SOp::Insert(8), SOp::Insert(24), SOp::Insert(8), SOp::Remove(1), SOp::Begin],
+            Base::TwoLiveTx => vec![SOp::Insert(8), SOp::Insert(24), SOp::Begin],
         }
     }
     pub fn script_slots(&self) -> [u64; 2] {
         [1, 2]
     }
     pub fn parse(s: &str) -> Option<Base> {
-        BASES.into_iter().find(|b| format!("{b:?}") == s)
+        BASES_WITH_OPEN_TX.into_iter().find(|b| format!("{b:?}") == s)
     }
 }
 
